@@ -82,7 +82,7 @@ CHECKS = {
     "C12": dict(
         level="model_checking",
         text=("FileAsm.tla generates every fragmented file layout with mutually consistent delimiters (styp, top-level sidx, "
-              "mfra+ISM flag, start-on-moof, segment-level sidx, emsg placements, 1-2 tracks, 1-2 truns per traf), states the prescribed partition "
+              "mfra+ISM flag, start-on-moof, segment-level sidx, emsg placements, 1-2 tracks, 1-2 truns per traf or one trun whose durations come from the tfhd default), states the prescribed partition "
               "(Prop) and folds an Impl model of File.AddChild/startSegmentIfNeeded over the box sequence; TLC checks Impl = Prop "
               "for all layouts and exports them; each is materialised with real sizes (two-pass sidx/tfra), decoded by both file "
               "decoders, and the observed partition, the segment-mode re-encoding and the index written by UpdateSidx (read back by "
